@@ -265,9 +265,11 @@ struct HistGen {
             if (mant) { k.set("rounds", *irange(5, 8)); if (s.kind == PM) k.set("mode", *irange(0, 1)); }
             p.push_back(k);
         } else if (w == 1) {    // NULL key
-            Op k = base(i, "set_key", true);
-            k.setnull("key").set("len", mant ? 16 : bs);
-            if (mant) { k.set("rounds", *irange(5, 8)); if (s.kind == PM) k.set("mode", 1); }
+            // (every key-setting entry point, every legal length: the NULL test must not depend on either)
+            bool tk = ctr && !mant && *chance(45);
+            Op k = base(i, tk ? "set_tweaked_key" : "set_key", true);
+            k.setnull("key").set("len", mant ? 16 : bs * *irange(1, tk ? 2 : 3));
+            if (mant) { k.set("rounds", *irange(5, 8)); if (s.kind == PM) k.set("mode", *irange(0, 1)); }
             p.push_back(k);
         } else if (w == 2 && mant) {   // bad rounds
             Op k = base(i, "set_key", true);
@@ -276,17 +278,21 @@ struct HistGen {
             p.push_back(k);
         } else if (w == 2 || w == 3) {
             if (ctr) {            // NULL object
-                const char *fns[] = {"set_counter", "encrypt", "set_key", "init", "cleanup", "set_tweak"};
-                const char *fn = fns[*irange(0, 5)];
+                const char *fns[] = {"set_counter", "encrypt", "set_key", "init", "cleanup", "set_tweak", "set_tweaked_key"};
+                const char *fn = fns[*irange(0, mant ? 5 : 6)];
                 Op x = mkop(opn(s.kind, fn)); x.set("s", -1).set("inv", 1);
                 if (!strcmp(fn, "set_counter")) x.set("ctr", *gbytes(bs)).set("len", bs);
                 else if (!strcmp(fn, "encrypt")) x.set("in", *gdata(*irange(0, 40)));
-                else if (!strcmp(fn, "set_key")) { x.set("key", *gbytes(mant ? 16 : bs)).set("len", mant ? 16 : bs); if (mant) x.set("rounds", 7); }
+                else if (!strcmp(fn, "set_key") || !strcmp(fn, "set_tweaked_key")) { x.set("key", *gbytes(mant ? 16 : bs)).set("len", mant ? 16 : bs); if (mant) x.set("rounds", 7); }
                 else if (!strcmp(fn, "set_tweak")) x.set("tweak", *gbytes(bs)).set("len", bs);
                 p.push_back(x);
             } else {
-                int which = *irange(0, 3);
-                if (which == 0) {      // ragged size
+                int which = *irange(0, 4);
+                if (which == 4) {      // NULL object, key-setting entry point
+                    Op x = mkop(opn(s.kind, "set_key")); x.set("s", -1).set("inv", 1);
+                    x.set("key", *gbytes(mant ? 16 : bs)).set("len", mant ? 16 : bs); if (mant) x.set("rounds", 7).set("mode", *irange(0, 1));
+                    p.push_back(x);
+                } else if (which == 0) {      // ragged size
                     // ragged byte counts, below and above the vector batch (64 / 128 bytes)
                     int n = *rc::gen::weightedOneOf<int>({{2, irange(1, 5 * bs)}, {3, irange(1, 24 * bs)}, {1, rc::gen::element(63, 65, 127, 129, 257)}});
                     if (n % bs == 0) n += 1 + *irange(0, bs - 2);
@@ -341,12 +347,14 @@ struct HistGen {
             if (o.lifecycle && s.ever && *chance(45)) {
                 // use after cleanup / repeated cleanup: all must be harmless and return 0
                 int w = *irange(0, 4);
-                if (w == 0) cleanup(i); else if (w == 1) key(i); else if (w == 2) data(i); else if (w == 3 && ctr) counter(i); else if (ctr) tweak(i); else data(i);
+                if (w == 0) cleanup(i); else if (w == 1) key(i); else if (w == 2) data(i); else if (w == 3 && ctr) counter(i); else if (ctr) tweak(i);
+                else if (s.kind == PM && *chance(50)) swap(i); else data(i);
                 return;
             }
             if (o.lifecycle && !s.ever && s.zeroed && *chance(25)) {   // never-initialised zeroed object
-                int w = *irange(0, 2);
-                if (w == 0) cleanup(i); else if (w == 1) key(i); else data(i);
+                int w = *irange(0, 4);
+                if (w == 0) cleanup(i); else if (w == 1) key(i); else if (w == 2) data(i); else if (w == 3 && ctr) counter(i); else if (ctr) tweak(i);
+                else if (s.kind == PM) swap(i); else data(i);
                 return;
             }
             init(i);
